@@ -117,3 +117,25 @@ pub fn stale(path: &str) {
     }
     let _ = std::fs::write(path, &junk);
 }
+
+/// gzip of `data` as one member
+pub fn gz(data: &[u8]) -> Vec<u8> {
+    use std::io::Write;
+    let mut e = flate2::write::GzEncoder::new(Vec::new(), flate2::Compression::default());
+    e.write_all(data).unwrap();
+    e.finish().unwrap()
+}
+
+/// gzip of a text file as TWO members (as `cat lane1.gz lane2.gz` gives), cut behind the line nearest to the middle that
+/// ends a group of `lines_per_record` lines
+pub fn gz_two_members(text: &[u8], lines_per_record: usize) -> Vec<u8> {
+    let ends: Vec<usize> = text.iter().enumerate().filter(|(_, b)| **b == b'\n').map(|(i, _)| i + 1).collect();
+    let records = ends.len() / lines_per_record.max(1);
+    if records < 2 {
+        return gz(text);
+    }
+    let cut = ends[(records / 2) * lines_per_record - 1];
+    let mut out = gz(&text[..cut]);
+    out.extend(gz(&text[cut..]));
+    out
+}
